@@ -195,6 +195,9 @@ POPEN_PATHS = [
     [O('ExpectEOF'), O('Wait')],
     [O('Wait'), O('ExpectEOF'), O('Wait')],
     [O('SendEof'), O('Wait'), O('SendEof'), O('Wait')],
+    # "make sure it is gone": a signal to a child that has already died (not yet waited for), then wait()
+    [O('Kill', 9), O('Wait'), O('Wait')],
+    [O('ExpectEOF'), O('Kill', 1), O('Wait')],
 ]
 
 
